@@ -314,8 +314,11 @@ def _main(prop, tier, seed, a, work, t0):
         "wall_s": wall,
         "violations": len(violations),
     }
-    os.makedirs(os.path.join(ROOT, "evidence"), exist_ok=True)
-    json.dump(ev, open(os.path.join(ROOT, "evidence", f"{prop}.json"), "w"), indent=1, default=str)
+    # (mutant / sensitivity runs set VERIF_EVIDENCE_DIR so that the committed evidence,
+    # which must describe the unchanged tree, is not overwritten)
+    evdir = os.environ.get("VERIF_EVIDENCE_DIR") or os.path.join(ROOT, "evidence")
+    os.makedirs(evdir, exist_ok=True)
+    json.dump(ev, open(os.path.join(evdir, f"{prop}.json"), "w"), indent=1, default=str)
 
     for l in lines:
         print(l)
